@@ -1,35 +1,8 @@
 """C18 — memory limiter refuses data exactly while usage is at or above the soft limit."""
-import json
 import os
 import vlib
 
 _HERE = os.path.dirname(os.path.abspath(__file__))
-_global_known = vlib.known_findings
-
-
-def _known_with_proposed(pid):
-    """known_findings.json is the integrator's file; until the C18 proposals are merged there, the
-    entries of props/C18/findings.json are honoured as well (an id present globally wins)."""
-    res = list(_global_known(pid))
-    if pid != "C18":
-        return res
-    try:
-        data = json.load(open(os.path.join(_HERE, "findings.json")))
-    except Exception:
-        return res
-    all_global = set()
-    try:
-        all_global = {f.get("id") for f in
-                      json.load(open(os.path.join(vlib.VERIF, "known_findings.json"))).get("findings", [])}
-    except Exception:
-        pass
-    for f in data.get("findings", []):
-        if f.get("property") == pid and f.get("status", "open") == "open" and f.get("id") not in all_global:
-            res.append(f)
-    return res
-
-
-vlib.known_findings = _known_with_proposed
 
 # parameter order of the T1-generated definitions that C18/Model.v relies on when it applies them
 _EXPECTED_PARAMS = {
@@ -45,7 +18,7 @@ _EXPECTED_PARAMS = {
 
 class P(vlib.Prop):
     pid = "C18"
-    coq_dirs = ["Common", "C18", "Generated"]
+    coq_dirs = ["Common", "C18"]   # + Generated/MemLimiter18.v, gated in extra_checks
     coq_targets = ["C18/Properties.vo", "C18/Witness.vo", "C18/Harness.vo"]
     properties_module = "C18.Properties"
     properties_file = "C18/Properties.v"
@@ -55,22 +28,24 @@ class P(vlib.Prop):
     shard = 100
     harnesses = [
         vlib.Harness("core", "internal/memorylimiter", ".", {"zz_verif_c18_test.go": "C18/core_test.go"},
-                     "^TestVerifC18$", "memorylimiter"),
+                     "^TestVerifC18$", "memorylimiter", timeout=300),
         vlib.Harness("proc", "processor/memorylimiterprocessor", ".", {"zz_verif_c18_test.go": "C18/proc_test.go"},
-                     "^TestVerifC18Proc$", "memorylimiterprocessor"),
+                     "^TestVerifC18Proc$", "memorylimiterprocessor", timeout=300),
         vlib.Harness("ext", "extension/memorylimiterextension", ".", {"zz_verif_c18_test.go": "C18/ext_test.go"},
-                     "^TestVerifC18Ext$", "memorylimiterextension"),
+                     "^TestVerifC18Ext$", "memorylimiterextension", timeout=300),
     ]
-    rule = ("core (internal/memorylimiter, in-package): configurations (70% accepted by Validate; fixed and percentage "
+    rule = ("core (internal/memorylimiter, in-package): configurations (62% accepted by Validate by construction, the others with one corruption aimed at each Validate error; fixed and percentage "
             "mode, total memory up to 2^64-1) -> Validate class + usage checker; scripted check histories on a real "
             "MemoryLimiter with readMemStatsFn/runGCFn replaced and lastGCDone rewritten before every check "
             "(readings soft-1/soft/soft+1/hard-1/hard/hard+1/0/2^64-1/random, elapsed times k min + 30 s around both "
             "minimum GC intervals) -> MustRefuse, GC calls, lastGCDone rewritten, GC marker and log lines in order; "
             "EVERY Start/Shutdown sequence up to length 6 (quick) / 8 (thorough) on a limiter ticking every ms -> "
-            "error, refCounter, closed channel, periodic checks observed. proc (processor/memorylimiterprocessor): "
+            "error, refCounter, closed channel, periodic checks observed; scripts of Start/Shutdown/usage-change/"
+            "MustRefuse on a limiter driven by its real ticker (CSys). proc (processor/memorylimiterprocessor): "
             "four processors (traces, metrics, logs, profiles) from one factory sharing one limiter, checks "
             "interleaved with Consume* calls into recording sinks with scripted downstream errors, Start/Shutdown "
-            "scripts over the four processors. ext (extension/memorylimiterextension): checks + MustRefuse. "
+            "scripts over the four processors, create sequences over several config objects (limiter sharing), "
+            "a concurrent run (ticker flips the mode while 8 producers consume; oracle only). ext (extension/memorylimiterextension): checks + MustRefuse. "
             "A case is non-trivial when a limiter was built and at least one check / one successful Start / one "
             "consume happened; distinct = distinct case terms.")
     trusted_base = [
@@ -88,6 +63,15 @@ class P(vlib.Prop):
         "CheckMemLimits runs only on the monitoring goroutine (one check at a time); Start/Shutdown are atomic under refCounterLock",
         "Go uint64/uint32 arithmetic wraps mod 2^64 (written explicitly in the generated definitions)",
     ]
+
+    def extra_checks(self, ctx):
+        # grep gate for this property's own generated file only (not the whole Generated directory)
+        p = os.path.join(vlib.COQ, "Generated", "MemLimiter18.v")
+        src = vlib.strip_coq_comments(open(p, encoding="utf-8").read())
+        bad = ["%s:%d: %s" % (p, i, line.strip()) for i, line in enumerate(src.split("\n"), 1)
+               if vlib.FORBIDDEN.search(line)]
+        if bad:
+            raise vlib.Broken("forbidden vernacular in the development", "\n".join(bad))
 
     def translate(self, ctx):
         vlib.go2coq(ctx, "internal/memorylimiter", os.path.join(_HERE, "t1_spec.json"), "MemLimiter18")
